@@ -6,7 +6,7 @@ from mgrbase import MgrBase, protocol_scenario
 class C12(MgrBase):
     id = "C12"
     proof_target = "Props/C12.vo"
-    theorems = ["C12_have_absorbing", "C12_asked_advertised_lacked", "C12_invariant", "C12_invariant_step", "C12_released", "C12_task_guarantee", "C12_flags_agree", "C12_no_manager_panic", "C12_wf_preserved", "C12_task_commands_sendable", "C12_manager_handles", "C12_task_commands_deliverable", "C12_rotation_handles"]
+    theorems = ["C12_have_absorbing", "C12_asked_advertised_lacked", "C12_invariant", "C12_invariant_step", "C12_released", "C12_task_guarantee", "C12_flags_agree", "C12_no_manager_panic", "C12_wf_preserved", "C12_task_commands_sendable", "C12_manager_handles", "C12_task_commands_deliverable", "C12_rotation_handles", "C12_listener_repaired", "C12_listener_keeps_invariant", "C12_listener_pinned_refuted"]
     coq_header = ("From Rdest Require Import Base Consts Wire Manager Corr.Mgr.\nOpen Scope N_scope.\n"
                   "Definition codes := codes12.\n")
     rule = ("event histories over 1-3 peers x 2-12 pieces that the connection tasks can produce (choke, unchoke, interested, "
@@ -23,6 +23,11 @@ class C12(MgrBase):
                 P(["add 1", "add 2", "init 1", "init 2", "bf 1 111", "bf 2 100", "unchoke 1", "choke 1", "done 1"]),
                 P(["add 1", "add 2", "bf 1 100", "bf 2 100", "unchoke 1", "choke 1", "unchoke 2", "unchoke 1", "done 1"]),
                 P(["add 1", "bf 1 110", "unchoke 1", "done 1", "done 1", "kill 1"]),
+                # a second connection from the address of a peer that holds an assignment (fixed finding
+                # listener-replaces-connected-peer): the entry, the reservation and the old task's reports stay consistent
+                P(["accept 101", "init 101", "bf 101 110", "unchoke 101", "accept 101", "done 101", "accept 101", "kill 101"], "corpus-reconnect"),
+                # the listener turns connections away while four connected peers are of no interest to us
+                P(["accept 101", "accept 102", "accept 103", "accept 104", "accept 105", "init 105", "kill 101", "accept 105", "init 105"], "corpus-admission"),
                 self.mk("raw", 3, 4, 10, ["add 1", "done 1"], "corpus-raw"),
                 self.mk("raw", 3, 4, 10, ["unchoke 7"], "corpus-raw"),
                 self.mk("raw", 3, 4, 10, ["add 1", "have 1 9"], "corpus-raw")]
